@@ -2,11 +2,17 @@ package raft
 
 import (
 	"context";
+	"encoding/json";
 
 	pb "github.com/marekgalovic/anndb/protobuf";
 
 	"github.com/golang/protobuf/proto";
 )
+
+// The address book (cluster.Conn) is state of the zero group as well: it is
+// built from the addresses carried by the membership changes of its log. A
+// snapshot replaces that part of the log, so it has to carry the addresses.
+const sharedGroupNodesSnapshotKey string = "__nodes"
 
 // Shared group
 type sharedGroup struct {
@@ -60,6 +66,12 @@ func (this *sharedGroup) processSnapshot(data []byte) error {
 	}
 
 	for proxyName, proxySnapshot := range snapshot.GetProxySnapshots() {
+		if proxyName == sharedGroupNodesSnapshotKey {
+			if err := this.processNodesSnapshot(proxySnapshot); err != nil {
+				return err
+			}
+			continue
+		}
 		proxy := this.proxies[proxyName]
 		if err := proxy.processSnapshotFn(proxySnapshot); err != nil {
 			return err
@@ -68,9 +80,31 @@ func (this *sharedGroup) processSnapshot(data []byte) error {
 	return nil
 }
 
+func (this *sharedGroup) processNodesSnapshot(data []byte) error {
+	nodes := make(map[uint64]string)
+	if err := json.Unmarshal(data, &nodes); err != nil {
+		return err
+	}
+
+	transport := this.group.transport
+	for id, _ := range transport.clusterConn.Nodes() {
+		if _, exists := nodes[id]; !exists && id != transport.NodeId() {
+			transport.removeNodeAddress(id)
+		}
+	}
+	for id, address := range nodes {
+		transport.addNodeAddress(id, address)
+	}
+	return nil
+}
+
 func (this *sharedGroup) snapshot() ([]byte, error) {
 	var err error
 	proxySnapshots := make(map[string][]byte)
+	proxySnapshots[sharedGroupNodesSnapshotKey], err = json.Marshal(this.group.transport.clusterConn.Nodes())
+	if err != nil {
+		return nil, err
+	}
 	for _, proxy := range this.proxies {
 		if proxy.snapshotFn != nil {
 			proxySnapshots[proxy.name], err = proxy.snapshotFn()
